@@ -58,6 +58,11 @@ fn received(out: &Outcome, from: &Addr, to: &Addr) -> BTreeMap<String, u128> {
     m
 }
 
+/// u128 amounts as strings (serde_json numbers stop at u64)
+fn jmap(m: &BTreeMap<String, u128>) -> serde_json::Value {
+    serde_json::Value::Array(m.iter().map(|(d, a)| serde_json::Value::String(format!("{a}{d}"))).collect())
+}
+
 fn add(into: &mut BTreeMap<String, u128>, x: &BTreeMap<String, u128>) {
     for (k, v) in x {
         *into.entry(k.clone()).or_default() += v;
@@ -199,7 +204,7 @@ impl C07 {
                 "schedule_independence",
                 None,
                 format!("{}'s total reward over epochs {cur}..{end_epoch} depends on the claim schedule (every epoch / once / split): {:?}", w.name_of(user.as_str()), totals),
-                witness(json!({"every_epoch": totals[0], "once": totals[1], "split": totals[2], "others_same": others_due[0] == others_due[1] && others_due[1] == others_due[2]})),
+                witness(json!({"every_epoch": jmap(&totals[0]), "once": jmap(&totals[1]), "split": jmap(&totals[2]), "others_same": others_due[0] == others_due[1] && others_due[1] == others_due[2]})),
             );
         }
     }
@@ -229,7 +234,7 @@ impl Monitor for C07 {
                         } else if qq == paid {
                             rep.held("query_equals_claim", abs, || json!({"user": w.name_of(&user), "until_epoch": until_epoch, "rewards_query": q.iter().map(|(d, a)| format!("{a}{d}")).collect::<Vec<_>>(), "claim_paid": "identical"}));
                         } else {
-                            rep.failed("query_equals_claim", None, format!("Rewards query said {:?}, the immediate claim paid {:?}", q, paid), witness(json!({"user": w.name_of(&user), "query": q, "paid": paid})));
+                            rep.failed("query_equals_claim", None, format!("Rewards query said {:?}, the immediate claim paid {:?}", q, paid), witness(json!({"user": w.name_of(&user), "query": jmap(q), "paid": jmap(&paid)})));
                         }
                     }
                     (Err(_), false) => rep.held("query_equals_claim", abs, || json!({"user": w.name_of(&user), "both": "fail", "claim": s.out.short()})),
@@ -239,7 +244,7 @@ impl Monitor for C07 {
                         if q.values().all(|v| *v == 0) {
                             rep.held("query_equals_claim", abs, || json!({"user": w.name_of(&user), "query": "nothing due", "claim": s.out.short()}));
                         } else {
-                            rep.failed("query_equals_claim", None, format!("Rewards query promises {:?} but the immediate claim fails: {}", q, s.out.short()), witness(json!({"user": w.name_of(&user), "query": q})));
+                            rep.failed("query_equals_claim", None, format!("Rewards query promises {:?} but the immediate claim fails: {}", q, s.out.short()), witness(json!({"user": w.name_of(&user), "query": jmap(q)})));
                         }
                     }
                     (Err(e), true) => rep.failed("query_equals_claim", None, format!("Rewards query fails ({e}) but the claim pays {:?}", paid), witness(json!({"user": w.name_of(&user)}))),
@@ -256,10 +261,10 @@ impl Monitor for C07 {
                         let p = bi(paid.get(d).copied().unwrap_or(0));
                         let exp = r.by_total_floor.get(d).cloned().unwrap_or_else(BigInt::zero);
                         let n = r.farm_epochs.get(d).copied().unwrap_or(0);
-                        // never more than the floored shares; less by under one unit per farm-epoch
-                        // (the floors are already taken in `exp`, so at this granularity: equal;
-                        // coarser flooring by the contract would still be within the statement)
-                        if p > exp || &p + bi(n as u128) < exp {
+                        // "rounded down (never more, and less by under one unit per farm-epoch)":
+                        // an integer within (exact - 1, exact] is floor(exact), so the payment
+                        // must equal the sum of the per-farm-epoch floors exactly
+                        if p != exp {
                             errs.push(json!({"denom": d, "paid": p.to_string(), "sum_of_floored_shares": exp.to_string(), "farm_epochs": n}));
                         }
                     }
